@@ -102,7 +102,7 @@ def declare(t, c, default):
     if t == "List" and c["it"] != "none":
         kw["item_type"] = {"int": int, "str": str, "float": float}[c["it"]]
     if t in ("Selector", "ListSelector"):
-        kw["objects"] = {"strs": ["a", "b"], "ints": [1, 2], "mixed": [1, "a", 1.5]}[c["objs"]]
+        kw["objects"] = {"strs": ["a", "b"], "ints": [1, 2], "mixed": [1, "a", 1.5], "dictints": {"one": 1, "two": 2}}[c["objs"]]
     if t == "ClassSelector":
         kw["class_"] = {"int": int, "str": str, "float": float, "intstr": (int, str), "bool": bool, "list": list, "dict": dict}[c["cls"]]
     return getattr(param, t)(default=default, **kw)
@@ -163,6 +163,24 @@ def replay(tab, opts):
                 if not same(back1, v):
                     return fail("deserialize_value", "deserialize_value(%s) gave %r, original %r" % (one, back1, v))
         if mode in ("both", "roundtrip"):
+            o = P(x=v, other=5)
+            for sb in tab["subsets"]:
+                for sub in (list(sb["sub"]), tuple(sb["sub"]), set(sb["sub"])):
+                    text = o.param.serialize_parameters(subset=sub)
+                    got = strict_loads(text)
+                    if set(got) != set(sb["keys"]):
+                        return fail("subset", "serialize_parameters(subset=%r) produced keys %s, spec expects %s" % (sub, sorted(got), sorted(sb["keys"])))
+                    kwargs = P.param.deserialize_parameters(text, subset=sub)
+                    if set(kwargs) != set(sb["keys"]):
+                        return fail("subset", "deserialize_parameters(%s, subset=%r) produced keys %s" % (text, sub, sorted(kwargs)))
+                    o2 = P(**kwargs)
+                    for k in sb["keys"]:
+                        if not same(getattr(o2, k), getattr(o, k)):
+                            return fail("roundtrip", "subset=%r: %s came back as %r, original %r" % (sub, k, getattr(o2, k), getattr(o, k)))
+                    alltext = o.param.serialize_parameters()
+                    kw2 = P.param.deserialize_parameters(alltext, subset=sub)
+                    if set(kw2) != set(sb["keys"]):
+                        return fail("subset", "deserialize_parameters(<all>, subset=%r) produced keys %s" % (sub, sorted(kw2)))
             full = strict_loads(P(x=v).param.serialize_parameters())
             if set(full) != {"name", "x", "other"}:
                 return fail("keys", "serialize_parameters() without subset has keys %s" % sorted(full))
